@@ -42,10 +42,23 @@ func extractSketch(repo string) (map[string]string, error) {
 		return nil, err
 	}
 	asg := assignments(pos)
-	for _, v := range []string{"idx", "off"} {
-		e, ok := asg[v]
+	// the two named results, whatever they are called: first = word index, second = bit offset
+	resNames := []string{"idx", "off"}
+	if r := pos.Type.Results; r != nil {
+		var ns []string
+		for _, f := range r.List {
+			for _, n := range f.Names {
+				ns = append(ns, n.Name)
+			}
+		}
+		if len(ns) == 2 {
+			resNames = ns
+		}
+	}
+	for i, v := range []string{"idx", "off"} {
+		e, ok := asg[resNames[i]]
 		if !ok {
-			return nil, fmt.Errorf("sketch.go: position does not assign %s", v)
+			return nil, fmt.Errorf("sketch.go: position does not assign %s", resNames[i])
 		}
 		t, err := leanBV(e)
 		if err != nil {
